@@ -252,7 +252,7 @@ def finish(pid, tier, spec, units, results, engines, known, t0):
         fb = {f["function"].split("::")[-1]: f for f in r.get("verus", {}).get("functions", [])}
         diags = r.get("verus", {}).get("diagnostics", [])
         for fn in b["functions"]:
-            if fn["kind"] != "extract":
+            if fn["kind"] != "extract" or fn.get("item_kind") == "type":
                 continue
             if spec.get("only_props_tagged") and pid not in fn.get("props", []):
                 continue
